@@ -165,6 +165,9 @@ func (flavor) Oracle(ops []lc.Op, obs []lc.StepObs) []core.Failure {
 				}
 			}
 		}
+		if len(o.Alive) > 0 {
+			add("context-of-ended-config-not-cancelled", fmt.Sprintf("op %d (%s → %s): the context of configuration(s) %v, which are not running, was never cancelled", i, op, o.Res, o.Alive))
+		}
 		// ---- pools as a function of the running configuration
 		// which contexts got as far as opening which writers (F4 bookkeeping): stderr by every
 		// context that was created, probe writer k by every context whose writer module loaded
